@@ -22,11 +22,13 @@ TICK = 0.5  # seconds of virtual time per spec tick
 
 
 class Hub:
-    def __init__(self, timecode: bool = False, timing: bool = True, log_level: int = 100, salt: int = 0):
+    def __init__(self, timecode: bool = False, timing: bool = True, log_level: int = 100, salt: int = 0,
+                 chunk: Optional[int] = None):
         from . import vio
 
         vio._HASH_SALT[0] = (0x9E3779B1 * (salt + 1)) & 0x7FFFFFFF
         self.timecode = timecode
+        self.chunk = chunk
         self.hs = F.hdr_struct(timecode).size
         self.net = Net()
         self._inst = Installed(self.net)
@@ -52,6 +54,7 @@ class Hub:
     # ------------------------------------------------------------------ env
     def open(self, name: str):
         c = self.net.open_conn(name)
+        self.net.ends[name].chunk = self.chunk
         self.raw[name] = c
         self.events.append({"a": "Open", "c": name})
         return c
@@ -136,14 +139,29 @@ class Hub:
         begin = {"a": "Begin", "acc": "", "nread": 0, "refresh": False, "W": []}
         cur: Optional[dict] = None
         cur_bytes: Dict[str, bytearray] = {}
-        want_payload: Optional[str] = None
-        pending_hdr: Optional[bytes] = None
         any_round = False
 
         def flush():
             nonlocal cur, cur_bytes
             if cur is None:
                 return
+            if cur["a"] == "Svc":
+                got = bytes(cur.pop("_got"))
+                short, rst = cur.pop("_short"), cur.pop("_rst")
+                if rst:
+                    cur["in"] = {"k": "rst"}
+                elif len(got) < self.hs:
+                    cur["in"] = {"k": "fin"}
+                else:
+                    hb = got[: self.hs]
+                    hh = F.parse_header(hb, self.timecode)
+                    nb = hh["num_data_bytes"]
+                    if nb >= 0 and len(got) == self.hs + nb:
+                        cur["in"] = self._abs_in(hb, got[self.hs:])
+                    elif short:
+                        cur["in"] = {"k": "fin"}
+                    else:
+                        cur["in"] = {"k": "badlen", "t": hh["msg_type"], "nb": nb, "got": len(got) - self.hs}
             emit = {}
             for c, bs in cur_bytes.items():
                 frs, rest = F.split_frames(bytes(bs), self.timecode)
@@ -173,32 +191,18 @@ class Hub:
                 begin["order"] = e[3]
             elif kind == "recv" and side == "srv":
                 nreq, data = e[3], e[4]
-                if want_payload == name and cur is not None:
-                    # payload read of the frame whose header was just read
-                    want_payload = None
-                    if data == -1:
-                        cur["in"] = {"k": "rst"}
-                    elif len(data) < nreq:
-                        cur["in"] = {"k": "fin"}
-                    else:
-                        cur["in"] = self._abs_in(pending_hdr, data)
-                    continue
-                flush()
-                cur = {"a": "Svc", "c": name, "lw": [], "closed": []}
+                # a connection is serviced at most once per loop iteration: its first read starts the
+                # step; how many recv calls the code needs for one frame is its own business
+                if cur is None or cur.get("a") != "Svc" or cur["c"] != name:
+                    flush()
+                    cur = {"a": "Svc", "c": name, "lw": [], "closed": [], "_got": bytearray(), "_short": False,
+                           "_rst": False}
                 if data == -1:
-                    cur["in"] = {"k": "rst"}
-                elif len(data) < nreq:
-                    cur["in"] = {"k": "fin"}
+                    cur["_rst"] = True
                 else:
-                    h = F.parse_header(data, self.timecode)
-                    nb = h["num_data_bytes"]
-                    if nb == 0:
-                        cur["in"] = self._abs_in(data, b"")
-                    else:
-                        pending_hdr = data
-                        want_payload = name
-                        # if the payload read never happens (bad length) classify now
-                        cur["in"] = {"k": "badlen", "t": h["msg_type"], "nb": nb if abs(nb) < 2**31 else 0}
+                    cur["_got"] += data
+                    if len(data) < nreq and (len(data) == 0 or self.net.ends[name].fin_in):
+                        cur["_short"] = True
             elif kind == "send" and side == "srv":
                 if cur is None:
                     cur = {"a": "End", "lw": [], "closed": []}
